@@ -236,6 +236,9 @@ def marked_range(path):
 def _driver(spec):
     """Run ``spec["runs"]`` (list of argv) in this process.
 
+    An element of runs that is a dict is a file action performed between two analyses
+    ({"action": "copy", "src", "dst"}: the model file is replaced while the process lives).
+    Without events/deny/kill/slow nothing of OSACA is wrapped (C18 sequences).
     spec keys (all optional except runs):
       events      side file, one JSON object per line: {"ev": load|dump|get|write|killed|access-denied, ...}
       deny        list of directory prefixes for which os.access(..., W_OK) answers False
@@ -274,6 +277,7 @@ def _driver(spec):
 
     kill = spec.get("kill")
     slow = spec.get("slow")
+    instrument = bool(evf or deny or kill or slow)  # C18 sequences run the untouched code
 
     class PickleProxy(object):
         def __getattr__(self, name):
@@ -316,7 +320,8 @@ def _driver(spec):
                 return
             f.write(stream)
 
-    hw.pickle = PickleProxy()
+    if instrument:
+        hw.pickle = PickleProxy()
     MM = hw.MachineModel
     orig_get, orig_write = MM._get_cached, MM._write_in_cache
 
@@ -333,8 +338,9 @@ def _driver(spec):
         emit(ev="write", file=str(filepath))
         return orig_write(self, filepath)
 
-    MM._get_cached = get_cached
-    MM._write_in_cache = write_in_cache
+    if instrument:
+        MM._get_cached = get_cached
+        MM._write_in_cache = write_in_cache
 
     import osaca.osaca  # noqa - everything imported before the start signal
 
